@@ -308,7 +308,8 @@ void overlap_reader(void* arg)
             done = S->writer_done;
         }
         if (done) break;
-        auto h = S->lr.lock_shared();
+        auto h = acquire(gsim::choose(4));
+        if (!h) continue;
         (void)h->read();
         int other_at_acquire = gsim::ctr_get(10 + (1 - me));
         gsim::ctr_add(10 + me, 1);
@@ -351,12 +352,63 @@ void run_overlap()
     S = nullptr;
 }
 
+// ------------------------------------------------------------- rstall mode
+// "slow node" fault aimed at the reader: a reader is parked at its k-th step
+// *inside* lock_shared (between reading the counting side, registering and
+// reading the data side) while writers run for a while; then it is released.
+void rstall_reader(void* arg)
+{
+    int t = (int)(long)arg;
+    gsim::freeze_arm(gsim::self(), gsim::knob("reader_freeze_k", 0, 4));
+    body(t);
+    gsim::freeze_disarm(gsim::self());
+    gsim::ctr_add(5, 1);
+}
+void rstall_other(void* arg)
+{
+    body((int)(long)arg);
+}
+void run_rstall()
+{
+    Cell::W = gsim::knob("W", 1, 3);
+    if (!gsim::prog_loaded()) {
+        int nw = 1 + gsim::gen_int(2);
+        gsim::prog_reset(1 + nw);
+        int k = 1 + gsim::gen_int(2);
+        for (int i = 0; i < k; i++)
+            gsim::prog_add(0, {OP_READ, gsim::gen_int(16), gsim::gen_int(3), 0});
+        for (int t = 1; t <= nw; t++) {
+            int m = 1 + gsim::gen_int(3);
+            for (int i = 0; i < m; i++) gsim::prog_add(t, {OP_MODIFY, 0, 0, 0});
+            if (gsim::gen_int(3) == 0) gsim::prog_add(t, {OP_READ, gsim::gen_int(16), 0, 0});
+        }
+    }
+    S = new State();
+    int pre = gsim::knob("pre_modifies", 0, 1);
+    for (int i = 0; i < pre; i++) do_modify(0);
+    int n = gsim::prog_nthreads();
+    int tids[gsim::MAX_THREADS];
+    tids[0] = gsim::spawn(rstall_reader, (void*)0L);
+    while (!gsim::is_frozen(tids[0]) && gsim::ctr_get(5) == 0) gsim::yield();
+    if (gsim::is_frozen(tids[0])) gsim::probe("lr.reader_parked_inside_lock_shared");
+    for (int t = 1; t < n; t++) tids[t] = gsim::spawn(rstall_other, (void*)(long)t);
+    int wait = gsim::knob("thaw_after", 0, 80);
+    for (int y = 0; y < wait; y++) gsim::yield();
+    gsim::thaw(tids[0]);
+    gsim::freeze_disarm(tids[0]);
+    for (int t = 0; t < n; t++) gsim::join(tids[t]);
+    final_checks(2);
+    delete S;
+    S = nullptr;
+}
+
 void run()
 {
     const char* mode = gsim::param("mode", "std");
     gsim::check_races(gsim::param_int("races", 0) != 0);
     if (!strcmp(mode, "freeze")) run_freeze();
     else if (!strcmp(mode, "overlap")) run_overlap();
+    else if (!strcmp(mode, "rstall")) run_rstall();
     else if (!strcmp(mode, "throw")) run_std(true);
     else run_std(false);
 }
